@@ -163,7 +163,7 @@ Qed.
 Lemma lget_lset l i p j : lget (lset l i p) j = if Nat.eqb j i then Some p else lget l j.
 Proof. unfold lset. simpl. rewrite lget_ldel. destruct (Nat.eqb j i); reflexivity. Qed.
 
-(* ====== the code as it is (/repo with da46472, 19ec63c, 160dd4a, b23f2f7; kinds K..Fixed) ====== *)
+(* ====== the code as it is (/repo with da46472, 19ec63c, 160dd4a, b23f2f7, 8dfe516; kinds K..Fixed) ====== *)
 
 Definition fixed_pc (c : pc) : bool :=
   match c with
@@ -1605,7 +1605,8 @@ Proof.
   - vm_compute. split; reflexivity.
 Qed.
 
-(* ===== proposed repair fix-F5 (parse_fallback): no requirement on the directory at all ===== *)
+(* ===== the code as it is since fix commit 8dfe516 (C19-F5, parse_fallback = true): no requirement on
+   the directory at all ===== *)
 
 (* the per-process part of the invariant does not depend on the final-name files being complete *)
 Lemma pstep_J c p s r s' r' :
@@ -1709,7 +1710,7 @@ Proof.
   destruct k; try discriminate Hk; unfold Jfix; simpl; repeat split; auto; intro; discriminate.
 Qed.
 
-(* with the proposed repair a finished load of a bundled version has returned the bundled schema
+(* with the parse fall-back of 8dfe516 a finished load of a bundled version has returned the bundled schema
    from EVERY directory state -- torn final-name files included *)
 Lemma f5_load_succeeds_every_directory c ks s0 evs p r v o :
   cleanup_outside_lock c = false -> parse_fallback c = true -> forallb is_fixed_kind ks = true ->
@@ -1764,3 +1765,11 @@ Lemma future_stamp_contrast :
   outcome_of w 1 = Some OSkipped /\
   exists r, nth_error (procs w) 1 = Some r /\ nreq r = 0 /\ cache_err r = true.
 Proof. vm_compute. repeat split; try reflexivity. eexists. repeat split; reflexivity. Qed.
+
+(* the example schedule ev_fixed in the mode that matches /repo (parse_fallback on, 8dfe516) *)
+Lemma fixed_example_f5 :
+  let w := run c2f (init t0 [KLoadFixed 1; KLoadFixed 1; KLoadFixed 0; KRefreshFixed]) ev_fixed in
+  pc_at w 0 = Some Dead /\ outcome_of w 1 = Some OLoaded /\ outcome_of w 2 = Some OLoaded /\
+  outcome_of w 3 = Some OSkipped /\ ver w 0 = Some (good 2) /\ ver w 1 = Some (good 2) /\
+  locks (sh w) = [] /\ fget (files_of (sh w)) (Tmp 0 0) = Some [Good].
+Proof. vm_compute. repeat split; reflexivity. Qed.
